@@ -24,7 +24,13 @@ import (
 	"verif/pbt"
 )
 
-var keyNames = []string{"k0", "k1", "k2"}
+// mkey is the key type of the timeline and free-running sub-checks: a string type whose String method answers the same
+// text for every key. A key is its underlying string; whatever the type prints as must not matter.
+type mkey string
+
+func (mkey) String() string { return "[key]" }
+
+var keyNames = []mkey{"k0", "k1", "k2"}
 
 // latencies of the supplied function: odd milliseconds, so that an execution that
 // starts on the (even) call grid never ends on it; 0 is the degenerate case.
@@ -66,7 +72,7 @@ func (c Case) String() string {
 				out = "item+err"
 			}
 		}
-		s += fmt.Sprintf(" [#%d @%dms %s fn:%v/%s]", i, at, keyNames[cl.Key], latencies[cl.Lat], out)
+		s += fmt.Sprintf(" [#%d @%dms %s fn:%v/%s]", i, at, string(keyNames[cl.Key]), latencies[cl.Lat], out)
 	}
 	return s
 }
@@ -158,7 +164,7 @@ type callRec struct {
 
 func prop(c Case, r *pbt.R) error {
 	exp := expiries[c.Expiry]
-	m := gogu.NewMemoizer[string, int](exp, 0)
+	m := gogu.NewMemoizer[mkey, int](exp, 0)
 	t0 := time.Now()
 	since := func() time.Duration { return time.Since(t0) }
 
@@ -233,7 +239,7 @@ func prop(c Case, r *pbt.R) error {
 	}
 	for i, cr := range calls {
 		if cr.item != nil && cr.err == nil && cr.item.Val() != cr.val {
-			return fmt.Errorf("%v: call #%d (%s) received the value %d; after the entries expired, were purged and another key was memoized, the item it holds reads %d", c, i, keyNames[cr.key], cr.val, cr.item.Val())
+			return fmt.Errorf("%v: call #%d (%s) received the value %d; after the entries expired, were purged and another key was memoized, the item it holds reads %d", c, i, string(keyNames[cr.key]), cr.val, cr.item.Val())
 		}
 	}
 
@@ -246,7 +252,7 @@ func prop(c Case, r *pbt.R) error {
 		if cr.err != nil {
 			res = fmt.Sprintf("error %q", cr.err)
 		}
-		return fmt.Sprintf("call #%d (%s, started %v, returned %v with %s)", i, keyNames[cr.key], cr.start, cr.end, res)
+		return fmt.Sprintf("call #%d (%s, started %v, returned %v with %s)", i, string(keyNames[cr.key]), cr.start, cr.end, res)
 	}
 	execsStr := func() string {
 		s := ""
@@ -255,7 +261,7 @@ func prop(c Case, r *pbt.R) error {
 			if !e.ok {
 				out = "error"
 			}
-			s += fmt.Sprintf(" {exec %d %s %v..%v %s by call #%d}", j, keyNames[e.key], e.start, e.end, out, e.by)
+			s += fmt.Sprintf(" {exec %d %s %v..%v %s by call #%d}", j, string(keyNames[e.key]), e.start, e.end, out, e.by)
 		}
 		return s
 	}
@@ -341,7 +347,7 @@ func prop(c Case, r *pbt.R) error {
 	for j, e := range execs {
 		if cs := cachedAt(e.key, e.start); len(cs) > 0 {
 			return fmt.Errorf("%v: execution %d for %s started at %v although the value %d (completed %v) was cached and not expired; executions:%s",
-				c, j, keyNames[e.key], e.start, cs[0].val, cs[0].end, execsStr())
+				c, j, string(keyNames[e.key]), e.start, cs[0].val, cs[0].end, execsStr())
 		}
 		found := false
 		for _, cr := range calls {
@@ -350,7 +356,7 @@ func prop(c Case, r *pbt.R) error {
 			}
 		}
 		if !found {
-			return fmt.Errorf("%v: execution %d for %s started at %v, when no call for that key started; executions:%s", c, j, keyNames[e.key], e.start, execsStr())
+			return fmt.Errorf("%v: execution %d for %s started at %v, when no call for that key started; executions:%s", c, j, string(keyNames[e.key]), e.start, execsStr())
 		}
 	}
 
@@ -365,7 +371,7 @@ func prop(c Case, r *pbt.R) error {
 			for _, e := range execs {
 				if e.ok && e.val == cr.val {
 					if e.key != cr.key {
-						return fmt.Errorf("%v: %s received a value computed for %s; executions:%s", c, desc(i), keyNames[e.key], execsStr())
+						return fmt.Errorf("%v: %s received a value computed for %s; executions:%s", c, desc(i), string(keyNames[e.key]), execsStr())
 					}
 					if e.start <= cr.end {
 						ok = true
@@ -481,7 +487,7 @@ func prop(c Case, r *pbt.R) error {
 				}
 			}
 			if !ok {
-				return fmt.Errorf("%v: the cache holds %d for %s, which no execution for that key produced; executions:%s", c, it.Val(), keyNames[k], execsStr())
+				return fmt.Errorf("%v: the cache holds %d for %s, which no execution for that key produced; executions:%s", c, it.Val(), string(keyNames[k]), execsStr())
 			}
 		}
 	}
@@ -517,7 +523,7 @@ func genFree(s pbt.Src, thorough bool) FreeCase {
 func propFree(c FreeCase, r *pbt.R) error {
 	old := runtime.GOMAXPROCS(c.Procs)
 	defer runtime.GOMAXPROCS(old)
-	m := gogu.NewMemoizer[string, int](cache.NoExpiration, 0)
+	m := gogu.NewMemoizer[mkey, int](cache.NoExpiration, 0)
 	var inflight [3]atomic.Int32
 	var overlap, execCount [3]atomic.Int32
 	var nextVal atomic.Int32
@@ -574,10 +580,10 @@ func propFree(c FreeCase, r *pbt.R) error {
 		wg.Wait()
 		for k := 0; k < c.Keys; k++ {
 			if overlap[k].Load() > 0 {
-				return fmt.Errorf("%+v round %d: two executions for key %s overlapped", c, round, keyNames[k])
+				return fmt.Errorf("%+v round %d: two executions for key %s overlapped", c, round, string(keyNames[k]))
 			}
 			if settled[k] != 0 && execCount[k].Load() != before[k] {
-				return fmt.Errorf("%+v round %d: the function ran again for %s although %d was cached (no expiry)", c, round, keyNames[k], settled[k])
+				return fmt.Errorf("%+v round %d: the function ran again for %s although %d was cached (no expiry)", c, round, string(keyNames[k]), settled[k])
 			}
 		}
 		for g, rs := range results {
@@ -592,10 +598,10 @@ func propFree(c FreeCase, r *pbt.R) error {
 			}
 			k, ok := produced.Load(rs.val)
 			if !ok || k.(int) != rs.key {
-				return fmt.Errorf("%+v round %d caller %d (%s): received %d, which was not produced for its key", c, round, g, keyNames[rs.key], rs.val)
+				return fmt.Errorf("%+v round %d caller %d (%s): received %d, which was not produced for its key", c, round, g, string(keyNames[rs.key]), rs.val)
 			}
 			if settled[rs.key] != 0 && rs.val != settled[rs.key] {
-				return fmt.Errorf("%+v round %d caller %d (%s): received %d although %d was cached", c, round, g, keyNames[rs.key], rs.val, settled[rs.key])
+				return fmt.Errorf("%+v round %d caller %d (%s): received %d although %d was cached", c, round, g, string(keyNames[rs.key]), rs.val, settled[rs.key])
 			}
 		}
 	}
